@@ -85,6 +85,8 @@ def flatten(key):
         out = []
         for p in pieces:
             if p[0] == 'lit': out.append(p)
+            elif isinstance(val, Str) and kind == 'display': out += flatten(val)          # Display of a string that was itself assembled from parts
+            elif isinstance(val, Str): raise Unsupported('Debug rendering of an assembled string inside a key')
             else: out += expand_value(kind, val, ty)
         return out
     raise Unsupported('key term ' + repr(t)[:80])
@@ -137,6 +139,7 @@ def lang(ty, kind='debug'):
         return cat(*seq)
     if ty == 'Pt': return cat(R('Pt { x: '), UINT, R(', y: '), UINT, R(' }'))
     if ty == 'Svc': return cat(R('Svc { id: '), UINT, R(' }'))
+    if ty == 'Maybe': return alt(R('None'), R('Just'))
     if ty == 'Node': return alt(R('Node1'), R('Node11'), R('Node110'))        # Debug of a unit-like enum: the variant name
     raise Unsupported('no rendering language for type ' + ty)
 
@@ -228,12 +231,19 @@ def run(P, item):
                     if r == z3.unknown: raise Unsupported('z3 could not decide the cross-shape string query for ' + name)
                     if r == z3.sat:
                         m = q.model()
+                        toks = None
+                        try:
+                            def side(flat_, vs_, params0_):
+                                vals = {id(p_[2]): (p_[1], m.eval(v_, model_completion=True).as_string()) for p_, v_ in zip([p_ for p_ in flat_ if p_[0] == 'arg'], vs_)}
+                                return [arg_token(a_, vals) for a_ in params0_ if a_.name != 'self']
+                            if not rec['recv']: toks = [side(fa, va, paths_[i_][1]), side(fb, vb, paths_[j_][1])]
+                        except Exception: toks = None
                         failed.append(dict(prop='C02', clause='argument tuples of different shape (None / Some, ...) never produce the same key', kind='keys', cfg=f"KEY/{name}", op='injectivity',
-                                           witness=dict(subject=name, collide=None, structure=[m.eval(ka).as_string(), [x.name for x in pa], [x.name for x in pb]], params=[a.name for a in paths_[0][1]])))
+                                           witness=dict(subject=name, collide=None, tokens=toks, structure=[m.eval(ka).as_string(), [x.name for x in pa], [x.name for x in pb]], params=[a.name for a in paths_[0][1]])))
                 except Unsupported as e:
                     if 'rendering language' not in str(e): raise
     return dict(paths=len(paths_), claims=claims, failed=failed, classes=sorted(classes), funcs=[subj.fname], builtins=[], checks=nq, solver_s=ts, blocks=0, infeasible=0,
-                tag=f"KEY {name} {[a.ty for a in params]} len<={maxlen} term={[(p[1] if p[0] == 'lit' else p[2].name) for p in flat]}")
+                tag=f"KEY {name} {[a.ty for a in params]} len<={maxlen} term={[(p[1] if p[0] == 'lit' else getattr(p[2], 'name', '?')) for p in flat]}")
 
 
 # ------------------------------------------------------------------ native replay
@@ -254,11 +264,50 @@ def parse_render(ty, s, kind='debug'):
                 out += {'n': '\n', 't': '\t', 'r': '\r', '0': '\0', '"': '"', '\\': '\\', "'": "'"}[c]; i += 2
             else: out += body[i]; i += 1
         return 's:' + ''.join('%%%02x' % b for b in out.encode('utf-8'))
+    if ty == 'Maybe' and s in ('None', 'Just'): return s
+    m = re.match(r'^(?:std::option::)?Option<(.*)>$', ty)
+    if m:
+        if s == 'None': return 'o:N'
+        if s.startswith('Some(') and s.endswith(')'): return 'o:S:' + parse_render(m.group(1), s[5:-1], 'debug')
+    if re.match(r"^(?:std::vec::)?Vec<\w+>$", ty) or re.match(r"^\[\w+\]$", ty):
+        comps = [c.strip() for c in s[1:-1].split(',')] if s != '[]' else []
+        if all(re.match(r'^-?\d+$', c) for c in comps): return 'v:' + ','.join(comps)
+    if ty.startswith('(') and ty.endswith(')'):
+        comps = [c.strip() for c in s[1:-1].rstrip(',').split(',')]
+        if all(re.match(r'^-?\d+$', c) for c in comps): return 't:' + ','.join(comps)
     raise Unsupported('no native argument encoding for ' + ty)
+
+
+def arg_token(a, vals):
+    """native token of one argument placeholder, given the renderings of the leaves it was unfolded into (vals: id(leaf) -> rendering)"""
+    if a.shape == 'none': return 'o:N'
+    if a.shape == 'some': return 'o:S:' + arg_token(a._fields[0], vals)
+    if a.shape == 'vec':
+        comps = [vals.get(id(c), (None, None))[1] if c.shape is None else None for c in a._fields]
+        if not all(c is not None and re.match(r'^-?\d+$', c) for c in comps): raise Unsupported('elements of ' + a.name + ' cannot be passed natively')
+        return 'v:' + ','.join(comps)
+    if a.shape == 'tuple':
+        comps = [vals.get(id(c), (None, '0'))[1] for c in a._fields] if all(c.shape is None for c in a._fields) else None
+        if comps is None or not all(re.match(r'^-?\d+$', c) for c in comps): raise Unsupported('components of ' + a.name + ' cannot be passed natively')
+        return 't:' + ','.join(comps)
+    r = vals.get(id(a))
+    if r is None:          # the argument takes no part in the key: any value will do
+        t = a._bare()
+        if t in ('u8', 'u16', 'u32', 'u64', 'usize', 'i8', 'i16', 'i32', 'i64', 'isize'): return '0'
+        raise Unsupported('no default native value for ' + a.name)
+    kind, text = r
+    return parse_render(a.ty, text, kind)
 
 
 def replay(f, w):
     from . import replay as R_
+    if w.get('tokens'):
+        a, b = w['tokens']
+        L = ['scenario subj', f"callk 0 {w['subject']} " + ' '.join(a), f"callk 0 {w['subject']} " + ' '.join(b), 'end']
+        outs, err = R_.run_scenarios('\n'.join(L) + '\n', timeout=60)
+        lines = outs[0] if outs else []; ex = [int(l[6:]) for l in lines if l.startswith('execs ')]
+        if len(ex) >= 2 and ex[1] == ex[0]: return True, f"natively the second call with arguments {b} was served from the entry of {a} (no execution)", lines
+        if len(ex) >= 2: return False, 'natively both calls executed the body', lines
     if not w.get('collide'): return True, 'structural fact read from the compiler MIR of the real build: ' + json.dumps(w.get('structure')), []
     subs = wrap.subjects(); rec = subs[w['subject']]
     try:
